@@ -6,7 +6,7 @@ pub enum CompileError {
     UnsupportedTest(String),
     #[error("Although this expression is valid, LiPE does not support this action: {0}")]
     UnsupportedAction(String),
-    #[error("Although this expression is valid, LiPE does not support this action: {0}")]
+    #[error("Although this expression is valid, LiPE does not support this option: {0}")]
     UnsupportedOption(String),
     #[error("Although this format string is valid, LiPE does not support this formatting: {0}")]
     UnsupportedFormat(String),
